@@ -105,13 +105,19 @@ def run(ctx):
         "every input class is realised by one concrete member; the byte-string half of the quantifier is sampled by a "
         "seeded mutational driver without coverage guidance (coverage-guided fuzzing is deliberately not used)",
         "a hang (no answer for 300 s) is a machinery error, not a verdict",
-        "handlers (HandleMakeJoin, HandleSendJoin, HandleInvite, PerformInvite) are outside this check; PerformJoin is "
-        "driven with make_join / send_join answers",
+        "handlers: HandleInvite / HandleInviteV3 / HandleSendJoin / HandleMakeJoin / HandleMakeLeave, PerformJoin, PerformInvite and "
+        "RequestBackfill are driven with the remote event / answer of the pipeline and harness callbacks; the callbacks answer "
+        "within their contracts only (normal, (nil, nil), nothing, an error, everything rejected): a callback that breaks its "
+        "contract (a verifier returning fewer results than requests, a provider returning other events than asked for) is not remote input",
+        "the sibling constructors NewEventFromTrustedJSON / NewEventFromHeaderedJSON are given bytes the untrusted parser accepted",
     ]
     ctx.notes["rule"] = (
         "TLC enumerates Lifecycle_gen.tla families %s: subject type x field (path) x input class (single faults; "
         "double faults over identifier/structure fields) x room versions x pipelines Parse > [mutator] > observer of "
-        "<= 3 operations with relevance pruning (an accessor is paired only with faults in field groups it reads; "
+        "<= 3 operations (constructors: untrusted / trusted / headered; roles of the event in resolution: state, auth, both, "
+        "every event listed twice, state sets holding nothing the checks need; handlers, PerformInvite, RequestBackfill; "
+        "application callbacks answering normally / (nil, nil) / nothing / an error / everything rejected) - the well-formed "
+        "subject and an edge-class family for ALL 16 versions already in the quick tier - with relevance pruning (an accessor is paired only with faults in field groups it reads; "
         "nothing follows a parse the design fixes to fail), plus raw inputs (identifiers, JSON documents, signed "
         "objects, key responses, Authorization headers, response bodies x every decode target) and make_join / "
         "send_join answers; then %d seeded byte-level mutants of the repository's test vectors and harness-built "
